@@ -60,6 +60,7 @@ type interpreter struct {
 	initPkgs     []*ssa.Package
 	assertsSymbolic int64
 	pathStart    int64
+	memo         map[string]string
 }
 
 type deferred struct {
